@@ -3,6 +3,8 @@ import NA.Model.CursorLinux
 import NA.Model.CursorHttp
 import NA.Model.CursorRefs
 import NA.Model.CursorBanner
+import NA.Model.CursorStatus
+import NA.Model.CursorCycle
 import NA.Gen.PanicSites
 import NA.Core.IOUtil
 /-!
@@ -141,6 +143,9 @@ def parseAnswer (fixed : Bool) (model : String) (isRaw : Bool) (data : Str) : St
     let f3 := (groups.filter (fun g => g.1.1 = lit "aaa-server")).filterMap
       (fun g => showFail (aaaGroup fixed g.1.2 g.2))
     -- the lookup map after postprocessParsed
+    -- local users without `username NAME nopassword` are not managed: dropped from the lookup map (135107b)
+    let groups := groups.filter fun g =>
+      !(g.1.1 = lit "username") || g.2.any (fun c => hasSuffix c.parsed (lit " nopassword"))
     let post : Lookup := groups.map fun g =>
       let key := if g.1.1 = lit "crypto map" ∧ g.1.2 = [] then (lit "crypto map interface", g.1.2) else g.1
       let l : List Cmd :=
@@ -236,6 +241,63 @@ def showDescr (ds : List Descr) : String :=
       (if d.ignore then "1" else "0") ++ String.singleton GS ++
       ";".intercalate (d.sub.map fun s => (if s.2 then "!" else "") ++ " ".intercalate (s.1.map str)))
 
+/-! ### status file -/
+
+def FS : Char := '\x1c'
+def ES : Char := '\x1b'
+
+def decScalar (s : String) : Status.Scalar :=
+  match s.toList with
+  | 'n' :: _ => .null
+  | 't' :: _ => .bool true
+  | 'f' :: _ => .bool false
+  | 'i' :: l => .num l
+  | 's' :: l => .str l
+  | 'a' :: _ => .arr
+  | _ => .obj
+
+def decField (s : String) : Status.Field :=
+  match s.toList with
+  | 'n' :: _ => .null
+  | 't' :: _ => .bool
+  | 'i' :: _ => .num
+  | 's' :: _ => .str
+  | 'a' :: _ => .arr
+  | 'o' :: rest =>
+    .obj ((listOf FS (String.ofList rest)).map fun e =>
+      match splitOnC ES e with
+      | [k, v] => (k.toList, decScalar v)
+      | _ => ([], .null))
+  | _ => .null
+
+def decTop (s : String) : Status.Top :=
+  match s.toList with
+  | 'N' :: _ => .notJSON
+  | 'n' :: _ => .null
+  | 't' :: _ => .bool
+  | 'i' :: _ => .num
+  | 's' :: _ => .str
+  | 'a' :: _ => .arr
+  | 'o' :: rest =>
+    .obj ((listOf RS (String.ofList rest)).map fun e =>
+      match splitOnC GS e with
+      | [k, v] => (k.toList, decField v)
+      | _ => ([], .null))
+  | _ => .notJSON
+
+def showAction (a : Status.Action) : String := str a.result ++ "|" ++ str a.policy ++ "|" ++ toString a.time
+def showSt (v : Status.St) : String := showAction v.approve ++ "|" ++ showAction v.compare
+def showVerdict : Status.Verdict → String
+  | .listed => "listed"
+  | .upToDate => "uptodate"
+  | .compareCode p => "compare:" ++ str p
+
+def decGroups (s : String) : List (Str × List Str) :=
+  (listOf RS s).map fun e =>
+    match splitOnC GS e with
+    | n :: ms => (n.toList, (ms.filter (· ≠ "")).map String.toList)
+    | [] => ([], [])
+
 def answer (line : String) : String :=
   match splitOnC US line with
   | ["acl", fx, kind, orig, parsed] =>
@@ -287,6 +349,21 @@ def answer (line : String) : String :=
   | ["info", fx, items] =>
     esc <| showRes (fun (x : Bool) => if x then "1" else "0") (Files.loadInfoFile (b fx) ((listOf RS items).map decOpen))
   | ["descr", m] => esc (showDescr (descrOf m))
+  | ["status", readable, top, current] =>
+    let v := Status.read (b readable) (decTop top)
+    "ok:" ++ showSt v ++ "|" ++ showVerdict (Status.check v current.toList)
+  | ["statusset", kind, top, policy, flag, now] =>
+    let v := Status.read true (decTop top)
+    let r := if kind == "approve" then Status.setApprove v policy.toList (b flag) now.toInt! true
+             else Status.setCompare v policy.toList (b flag) now.toInt! true
+    esc <| showRes showSt r
+  | ["pancycle", groups] =>
+    let gs := decGroups groups
+    let G : Str → Option (List Str) := fun n => (gs.find? (fun g => g.1 = n)).map (·.2)
+    -- a name defined twice: the map keeps the LAST definition
+    let G' : Str → Option (List Str) := fun n => (gs.reverse.find? (fun g => g.1 = n)).map (·.2)
+    let _ := G
+    esc <| showRes (fun _ => "") (PanOs.checkGroupCycle G' gs.length (gs.map (·.1)))
   | ["banner", data] =>
     esc <| showRes str (Banner.removeBanner ((data.replace (String.singleton GS) "\n").toList))
   | ["nsxheader", data] =>
